@@ -146,7 +146,12 @@ int __wrap_mkdir(const char *p, mode_t m) { DENY(p, -1); return __real_mkdir(p, 
 int __wrap_rmdir(const char *p) { DENY(p, -1); return __real_rmdir(p); }
 int __wrap_unlink(const char *p) { DENY(p, -1); return __real_unlink(p); }
 int __wrap_rename(const char *a, const char *b) { DENY(a, -1); DENY(b, -1); return __real_rename(a, b); }
-int __wrap_stat(const char *p, struct stat *st) { DENY(p, -1); return __real_stat(p, st); }
+/* time stamps of files are reported to the peer (directory listings, file headers): fixed, so that two runs of a
+ * case produce the same bytes */
+static void fix_times(struct stat *st) { st->st_mtime = st->st_ctime = st->st_atime = 1600000000; }
+int __wrap_stat(const char *p, struct stat *st) { int r; DENY(p, -1); r = __real_stat(p, st); if (r == 0 && armed) fix_times(st); return r; }
+int __real_fstat(int, struct stat *);
+int __wrap_fstat(int fd, struct stat *st) { int r = __real_fstat(fd, st); if (r == 0 && armed && S_ISREG(st->st_mode)) fix_times(st); return r; }
 int __wrap_utime(const char *p, const struct utimbuf *t) { DENY(p, -1); return __real_utime(p, t); }
 
 /* ---- scheduled peers -------------------------------------------------------------------- */
